@@ -90,63 +90,79 @@ func (m *Model) RunLexMode(s *Sink, rule string) {
 		return res
 	}
 	n := 0
-	for _, b := range nt.Blocks {
-		for _, in := range b.Instrs {
-			c, ok := in.(*ssa.Call)
-			if !ok || c.Call.StaticCallee() == nil || !inPkg(c.Call.StaticCallee(), "lexer") || c.Call.StaticCallee() == nt {
-				continue
-			}
-			sc := c.Call.StaticCallee()
-			var code []string
-			set := map[string]bool{}
-			if sc == newTok {
-				if kc, ok := c.Call.Args[1].(*ssa.Const); ok {
-					set[tokenConstNames[kc.Int64()]] = true
+	// the calls of NextToken that build code tokens lie under !l.isHTML; a call that does not is followed into the
+	// callee (a piece of NextToken that was given a name: the mode test may sit there), up to three levels
+	visited := map[*ssa.Function]bool{}
+	var sites func(host *ssa.Function, depth int)
+	sites = func(host *ssa.Function, depth int) {
+		if visited[host] {
+			return
+		}
+		visited[host] = true
+		for _, b := range host.Blocks {
+			for _, in := range b.Instrs {
+				c, ok := in.(*ssa.Call)
+				if !ok || c.Call.StaticCallee() == nil || !inPkg(c.Call.StaticCallee(), "lexer") || c.Call.StaticCallee() == nt || c.Call.StaticCallee() == host {
+					continue
 				}
-			} else {
-				for k := range builds(sc, 0) {
-					if strings.HasPrefix(k, "param:") {
-						pname := strings.TrimPrefix(k, "param:")
-						for i, p := range sc.Params {
-							if p.Name() == pname && i < len(c.Call.Args) {
-								if kc, ok := c.Call.Args[i].(*ssa.Const); ok {
-									set[tokenConstNames[kc.Int64()]] = true
+				sc := c.Call.StaticCallee()
+				var code []string
+				set := map[string]bool{}
+				if sc == newTok {
+					if kc, ok := c.Call.Args[1].(*ssa.Const); ok {
+						set[tokenConstNames[kc.Int64()]] = true
+					}
+				} else {
+					for k := range builds(sc, 0) {
+						if strings.HasPrefix(k, "param:") {
+							pname := strings.TrimPrefix(k, "param:")
+							for i, p := range sc.Params {
+								if p.Name() == pname && i < len(c.Call.Args) {
+									if kc, ok := c.Call.Args[i].(*ssa.Const); ok {
+										set[tokenConstNames[kc.Int64()]] = true
+									}
 								}
 							}
+							continue
 						}
-						continue
+						set[k] = true
 					}
-					set[k] = true
 				}
-			}
-			for k := range set {
-				if !textAlphabet[k] {
-					code = append(code, k)
+				for k := range set {
+					if !textAlphabet[k] {
+						code = append(code, k)
+					}
 				}
-			}
-			if len(code) == 0 {
-				continue
-			}
-			sort.Strings(code)
-			n++
-			show := code
-			if len(show) > 4 {
-				show = append(append([]string{}, show[:4]...), "...")
-			}
-			key := fmt.Sprintf("%s|%s(%s) builds code tokens only in code mode", fnKey(nt), canonFnName(sc), argConsts(c))
-			inCode := false
-			for _, f := range expandFacts(factsAt(b)) {
-				if m.isTextModeRead(f.Cond) && !f.Holds {
-					inCode = true
+				if len(code) == 0 {
+					continue
 				}
-			}
-			if inCode {
-				s.OK(rule, key, m.InstrPos(c), "the call is dominated by !l.isHTML; tokens: %v", show)
-			} else {
-				s.Violation(rule, key, m.InstrPos(c), "NextToken can call %s, which builds code tokens %v, while lexing plain text (no dominating !l.isHTML test): such characters in text would be tokenised instead of being emitted (e.g. \"}}\" in text disappears)", canonFnName(sc), show)
+				sort.Strings(code)
+				show := code
+				if len(show) > 4 {
+					show = append(append([]string{}, show[:4]...), "...")
+				}
+				inCode := false
+				for _, f := range expandFacts(factsAt(b)) {
+					if m.isTextModeRead(f.Cond) && !f.Holds {
+						inCode = true
+					}
+				}
+				if !inCode && sc != newTok && depth < 3 && sc.Blocks != nil {
+					// not guarded here: the callee must guard its own code-token sites
+					sites(sc, depth+1)
+					continue
+				}
+				n++
+				key := fmt.Sprintf("%s|%s(%s) builds code tokens only in code mode", fnKey(host), canonFnName(sc), argConsts(c))
+				if inCode {
+					s.OK(rule, key, m.InstrPos(c), "the call is dominated by !l.isHTML; tokens: %v", show)
+				} else {
+					s.Violation(rule, key, m.InstrPos(c), "%s can call %s, which builds code tokens %v, while lexing plain text (no dominating !l.isHTML test, here or at the callers): such characters in text would be tokenised instead of being emitted (e.g. \"}}\" in text disappears)", host.Name(), canonFnName(sc), show)
+				}
 			}
 		}
 	}
+	sites(nt, 0)
 	if n < 2 {
 		s.Undecided(rule, "code-token sites", "-", "expected at least two calls in NextToken that build code tokens (embedded code, closing braces), found %d", n)
 	}
@@ -395,7 +411,9 @@ func (m *Model) RunTextFlow(s *Sink, rule string) {
 	}
 	if sliceText {
 		base := writeByte
-		writeByte = func(c ssa.CallInstruction) bool { return appendChar(c) || (c.Common().StaticCallee() != nil && base(c)) }
+		writeByte = func(c ssa.CallInstruction) bool {
+			return appendChar(c) || (c.Common().StaticCallee() != nil && base(c))
+		}
 	}
 	pi := m.newPassInfo(writeByte, func(*ssa.Call) bool { return false }, []*ssa.Function{rh}, nil)
 	skipped := false
@@ -603,20 +621,32 @@ func (m *Model) RunTextFlow(s *Sink, rule string) {
 				undecided = "lexer.Lexer.char not found"
 				break
 			}
-			lx := &iStruct{typ: lexT, fields: map[int]any{fChar: constant.MakeInt64(int64(cs[0]))}}
-			ip := &Interp{m: m}
-			ip.call = func(c *ssa.Call, args []any) (any, bool) {
-				if sc := c.Call.StaticCallee(); sc != nil {
-					switch canonFnName(sc) {
-					case "peekChar":
-						return constant.MakeInt64(int64(cs[1])), true
-					case "prevChar":
-						return constant.MakeInt64(int64(cs[2])), true
-					}
+			// on a real lexer state first (whatever way the function looks at the bytes), else on an abstract one
+			var res any
+			ok := false
+			ip := &Interp{m: m, useGlobals: true}
+			if clx, okL := m.lexerAt(string([]byte{cs[2], cs[0], cs[1]})+" t", 1); okL {
+				res, ok = ip.Run(abt, []any{clx})
+				if _, isT := res.(iTuple); !ok || !isT || ip.stuck != "" {
+					ok = false
 				}
-				return nil, false
 			}
-			res, ok := ip.Run(abt, []any{lx})
+			if !ok {
+				lx := &iStruct{typ: lexT, fields: map[int]any{fChar: constant.MakeInt64(int64(cs[0]))}}
+				ip = &Interp{m: m}
+				ip.call = func(c *ssa.Call, args []any) (any, bool) {
+					if sc := c.Call.StaticCallee(); sc != nil {
+						switch canonFnName(sc) {
+						case "peekChar":
+							return constant.MakeInt64(int64(cs[1])), true
+						case "prevChar":
+							return constant.MakeInt64(int64(cs[2])), true
+						}
+					}
+					return nil, false
+				}
+				res, ok = ip.Run(abt, []any{lx})
+			}
 			tup, isT := res.(iTuple)
 			if !ok || !isT || len(tup) != 2 || ip.stuck != "" {
 				undecided = "current " + string(cs[0]) + ", next " + string(cs[1]) + ": " + ip.stuck
@@ -697,7 +727,11 @@ func (m *Model) RunTextFlow(s *Sink, rule string) {
 	// NextToken: newToken(HTML, readHTML())
 	if nt := m.Method("lexer", "Lexer", "NextToken"); nt != nil {
 		ok := false
-		for _, b := range nt.Blocks {
+		var ntBlocks []*ssa.BasicBlock
+		for _, hf := range m.helpersOf(nt) {
+			ntBlocks = append(ntBlocks, hf.Blocks...)
+		}
+		for _, b := range ntBlocks {
 			for _, in := range b.Instrs {
 				if c, isC := in.(*ssa.Call); isC && c.Call.StaticCallee() != nil && canonFnName(c.Call.StaticCallee()) == "newToken" {
 					if k, isK := c.Call.Args[1].(*ssa.Const); isK && tokenConstNames[k.Int64()] == "HTML" {
@@ -761,6 +795,43 @@ func (m *Model) RunTextFlow(s *Sink, rule string) {
 				continue
 			}
 			if k, isK := ret.Results[0].(*ssa.Const); !isK || k.Value == nil || k.Value.String() != "true" {
+				if isK {
+					continue // return false
+				}
+				// the returned boolean is itself the outcome of the search for the terminator (closed := idx != -1)
+				var foundVal func(v ssa.Value, d int) bool
+				foundVal = func(v ssa.Value, d int) bool {
+					if d > 4 {
+						return false
+					}
+					switch x := v.(type) {
+					case *ssa.Const:
+						return x.Value != nil && x.Value.String() == "false"
+					case *ssa.Phi:
+						for _, e := range x.Edges {
+							if !foundVal(e, d+1) {
+								return false
+							}
+						}
+						return true
+					case *ssa.Call:
+						return isTerm(x, "strings.HasPrefix", "strings.Contains")
+					case *ssa.Extract:
+						c, isC := x.Tuple.(*ssa.Call)
+						return isC && x.Index == 2 && isTerm(c, "strings.Cut")
+					case *ssa.BinOp:
+						c, _ := x.X.(*ssa.Call)
+						k, isK := x.Y.(*ssa.Const)
+						if isTerm(c, "strings.Index") && isK && k.Value != nil {
+							return (x.Op == token.GEQ && k.Int64() == 0) || (x.Op == token.NEQ && k.Int64() == -1) || (x.Op == token.GTR && k.Int64() == -1)
+						}
+					}
+					return false
+				}
+				nTrue++
+				if !foundVal(ret.Results[0], 0) {
+					ok = false
+				}
 				continue
 			}
 			nTrue++
